@@ -212,19 +212,19 @@ type EntryView struct {
 
 // Result is what an operation returned.
 type Result struct {
-	V       int
-	Ok      bool
-	Err     string // "", "err", "notfound", "panic", "joined"
-	Panic   bool
-	Entry   *EntryView
-	Map     map[int]int
-	Entries []EntryView
+	V        int
+	Ok       bool
+	Err      string // "", "err", "notfound", "panic", "joined"
+	Panic    bool
+	Entry    *EntryView
+	Map      map[int]int
+	Entries  []EntryView
 	IterNow  []int64  // iterators: clock when the loop body of element i returned
 	IterTick []uint64 // iterators: event sequence value at that moment
-	Num     uint64
-	Nil     bool // nil refresh channel
-	Refresh []RefreshView
-	Stats   stats.Stats
+	Num      uint64
+	Nil      bool // nil refresh channel
+	Refresh  []RefreshView
+	Stats    stats.Stats
 	// compute bookkeeping
 	CompCalls int
 	CompSaw   int
